@@ -112,15 +112,15 @@ def protocol_events(path, helpers):
             v = strip(ev[1])
             node = ev[2]
         if v is not None and v[0] == 'call' and v[1] in helpers.kind:
-            out.append((helpers.kind[v[1]], i, node, v[2], v[1]))
+            out.append((helpers.kind[v[1]], i, node, v[2], v[1], ev[1]))
         elif ev[0] == 'cond':
-            out.append(('COND', i, ev[3], (ev[1], ev[2]), None))
+            out.append(('COND', i, ev[3], (ev[1], ev[2]), None, None))
         elif ev[0] in ('while', 'endwhile', 'endwhile0', 'loop', 'loop0', 'endloop'):
-            out.append((ev[0].upper(), i, ev[2], ev[1], None))
+            out.append((ev[0].upper(), i, ev[2], ev[1], None, None))
         elif ev[0] == 'raise':
-            out.append(('RAISE', i, ev[2], ev[1], None))
+            out.append(('RAISE', i, ev[2], ev[1], None, None))
         elif ev[0] == 'expr' and v is not None and v[0] == 'call' and v[1] in ('sys.exit', 'exit', 'quit'):
-            out.append(('EXIT', i, node, v[2], None))
+            out.append(('EXIT', i, node, v[2], None, None))
     return out
 
 
